@@ -61,6 +61,12 @@ func (u *Unit) argShape(e ast.Expr, at ast.Node, depth int) string {
 					if hs := u.helperResultShape(d.rhs, 0, depth); hs != "" {
 						return hs
 					}
+					// a plain copy of another variable (`size := n`) costs no depth
+					if _, isAlias := ast.Unparen(d.rhs).(*ast.Ident); isAlias && u.aliasHops < 6 {
+						u.aliasHops++
+						defer func() { u.aliasHops-- }()
+						return u.argShape(d.rhs, d.node, depth)
+					}
 					return u.argShape(d.rhs, d.node, depth+1)
 				}
 				if len(ds) >= 2 && len(ds) <= 4 && depth < 2 {
@@ -649,7 +655,7 @@ func (u *Unit) forIndexShape(v *types.Var) string {
 // helperResultShape: a value produced by a private (or newly introduced) helper is rendered by what the
 // helper returns, so that moving a computation into a helper does not change operand shapes.
 func (u *Unit) helperResultShape(e ast.Expr, idx, depth int) string {
-	if u.eng == nil || depth > 2 {
+	if u.eng == nil || u.eng.helperNest > 3 {
 		return ""
 	}
 	c, ok := ast.Unparen(e).(*ast.CallExpr)
@@ -681,5 +687,11 @@ func (u *Unit) helperResultShape(e ast.Expr, idx, depth int) string {
 	if n != 1 || ret == nil || idx >= len(ret.Results) {
 		return ""
 	}
-	return newParamSubst(u, c).apply(hu.argShape(ret.Results[idx], ret, depth+2))
+	if _, isLit := ast.Unparen(ret.Results[idx]).(*ast.FuncLit); isLit {
+		return "" // an iterator / closure factory keeps its name
+	}
+	// the helper is transparent: its return expression is rendered with the depth budget of the call site
+	u.eng.helperNest++
+	defer func() { u.eng.helperNest-- }()
+	return newParamSubst(u, c).apply(hu.argShape(ret.Results[idx], ret, depth))
 }
